@@ -183,6 +183,14 @@ func (c *Ctx) ErrStops(key, fname string, m IM, forbid IM, min int, desc, why st
 	c.errHandled(key, fname, m, forbid, min, desc, why, true)
 }
 
+// ErrStrict (K7): like ErrHandled, but no sentinel / IsNotExist / errors.Is
+// branch counts as handling: only the nil edge ends the tracking.
+func (c *Ctx) ErrStrict(key, fname string, m IM, forbid IM, min int, desc, why string) {
+	c.strictErr = true
+	defer func() { c.strictErr = false }()
+	c.errHandled(key, fname, m, forbid, min, desc, why, false)
+}
+
 func (c *Ctx) errHandled(key, fname string, m IM, forbid IM, min int, desc, why string, stopsOnly bool) {
 	rule := "K7 ErrHandled"
 	fn := c.F(fname)
@@ -205,7 +213,14 @@ func (c *Ctx) errHandled(key, fname string, m IM, forbid IM, min int, desc, why 
 			return
 		}
 		x := &errCtx{e: e, al: errAliases(e)}
-		block := func(ed Edge) bool { return c.P.errEdgeKind(ed, x) != 0 }
+		strict := c.strictErr
+		block := func(ed Edge) bool {
+			k := c.P.errEdgeKind(ed, x)
+			if strict {
+				return k == 1
+			}
+			return k != 0
+		}
 		tgt := func(i ssa.Instruction) bool {
 			if forbid != nil && forbid(i) {
 				return true
